@@ -101,8 +101,9 @@ class ParCons(RankAggAlgorithm, PairwiseBasedAlgorithm):
             # then we have no trivial optimal solution. According to the size of the sub-problem, use of
             # the exact algorithm or a heuristics
             else:
-                # creation of a new Dataset representing the sub-problem
-                sub_problem = dataset.sub_problem_from_elements(set_current_elements)
+                # creation of a new Dataset representing the sub-problem. All the rankings are kept, even the ones where
+                # no element of the sub-problem is ranked: they have a cost for each pair of elements of the sub-problem
+                sub_problem = dataset.sub_problem_from_elements(set_current_elements, keep_all_rankings=True)
                 if len(scc_i) > self._bound_for_exact:
                     cons_ext = self._auxiliary_alg.compute_consensus_rankings(
                         sub_problem, scoring_scheme, True).consensus_rankings[0]
